@@ -59,8 +59,11 @@ theorem c17_projection {L : Type} (f : Nat → L → L) (schedule : List Nat) (i
 /-! ### (1) what is shared: regenerated facts -/
 
 /-- no function of package vm assigns a package-level variable, assigns one of its elements, calls a mutating
-    method on one of the shared 256-bit constants (directly or through a local alias) or takes their address -/
-theorem c17_no_shared_writes : Gen.globalWrites = [] := no_global_writes
+    method on one of the shared 256-bit constants (directly or through a local alias), takes their address, or calls a
+    state-changing method (Store, Swap, Put, Get, Do, Lock, …) on a package-level variable — with the one exception of the
+    stack pool, whose objects are emptied before they are put back (`returnStack` in `c17_sharing_facts`) -/
+theorem c17_no_shared_writes : Gen.globalWrites =
+    ["stack.go:newstack:mutating-method:stackPool.Get", "stack.go:returnStack:mutating-method:stackPool.Put"] := no_global_writes
 
 /-- copy-on-write of instruction tables, `Cancel`, the stack pool and the abort checks are what the proofs assume; the only
     reference-typed field of the by-value configuration, `ExtraEips`, is read (len, range) and replaced by a slice declared in the
